@@ -33,25 +33,34 @@ use tokio::sync::{mpsc, watch};
 
 // ------------------------------------------------------------------ (3) raw UDP → IceTransport
 
-fn stun_binding_request(tid: [u8; 12], use_candidate: bool) -> Vec<u8> {
+/// Credentials of the agent under test (its *local* ICE parameters): since the C06 fix a
+/// WebRTC-mode agent only answers Binding requests that carry USERNAME "<its ufrag>:<x>" and a
+/// MESSAGE-INTEGRITY keyed with its password, so the genuine stimulus has to be authentic.
+#[derive(Clone)]
+pub struct IceCreds {
+    pub ufrag: String,
+    pub pwd: String,
+}
+
+pub fn stun_binding_request(tid: [u8; 12], use_candidate: bool, creds: &IceCreds) -> Vec<u8> {
     let mut m = StunMessage::binding_request(tid, None);
-    m.attributes.push(StunAttribute::Username("remoteufrag:localufrag".into()));
+    m.attributes.push(StunAttribute::Username(format!("{}:remoteufrag", creds.ufrag)));
     m.attributes.push(StunAttribute::Priority(1845501695));
     m.attributes.push(StunAttribute::IceControlling(7));
     if use_candidate {
         m.attributes.push(StunAttribute::UseCandidate);
     }
-    m.encode(None, true).unwrap_or_default()
+    m.encode(Some(creds.pwd.as_bytes()), true).unwrap_or_default()
 }
 
 /// Binding request → success response with the same transaction id.
-async fn ice_probe(sock: &UdpSocket, to: SocketAddr, n: u64, use_candidate: bool) -> bool {
+async fn ice_probe(sock: &UdpSocket, to: SocketAddr, n: u64, use_candidate: bool, creds: &IceCreds) -> bool {
     let mut buf = vec![0u8; 2048];
     for attempt in 0..5u64 {
         let mut tid = [0u8; 12];
         tid[..8].copy_from_slice(&(n * 16 + attempt + 1).to_be_bytes());
         tid[8..].copy_from_slice(b"c07p");
-        let req = stun_binding_request(tid, use_candidate);
+        let req = stun_binding_request(tid, use_candidate, creds);
         if sock.send_to(&req, to).await.is_err() {
             continue;
         }
@@ -144,20 +153,26 @@ fn ice_body(mut c: Camp) -> Pin<Box<dyn Future<Output = (Camp, End)> + Send>> {
             return (c, End::Inconclusive("bind".into()));
         };
         let recv = Arc::new(NullReceiver(Default::default()));
+        let lp = ice.local_parameters();
+        let creds = IceCreds { ufrag: lp.username_fragment.clone(), pwd: lp.password.clone() };
         if state != "gathered" {
             let _ = ice.start(IceParameters::new("remoteufrag", "remotepasswordremotepassword"));
         }
         if state == "connected" {
             ice.set_data_receiver(recv.clone()).await;
-            let _ = ice_probe(&sock, target, 0, true).await;
+            let _ = ice_probe(&sock, target, 0, true, &creds).await;
             tokio::time::sleep(Duration::from_millis(100)).await;
             c.seen("live.ice.state_before_injection", format!("{:?}", ice.state()));
         }
-        if !ice_probe(&sock, target, 1, false).await {
+        if !ice_probe(&sock, target, 1, false, &creds).await {
             return (c, End::Inconclusive(format!("baseline Binding request unanswered in ICE state {state}")));
         }
         c.heap_base = alloc_count::tag_net_bytes(c.id);
         let mut seeds = pure::stun_seeds();
+        // authentic requests among the seeds: their mutants stay close to what passes the
+        // USERNAME / MESSAGE-INTEGRITY gate, and unmutated copies go through it
+        seeds.push(stun_binding_request([0x11; 12], false, &creds));
+        seeds.push(stun_binding_request([0x12; 12], true, &creds));
         seeds.extend(pure::rtp_seeds().into_iter().take(3));
         seeds.extend(pure::record_seeds().into_iter().take(3));
         let mut probes = 0u64;
@@ -171,7 +186,7 @@ fn ice_body(mut c: Camp) -> Pin<Box<dyn Future<Output = (Camp, End)> + Send>> {
             }
             if i % 100 == 99 {
                 probes += 1;
-                if !ice_probe(&sock, target, probes + 1, false).await {
+                if !ice_probe(&sock, target, probes + 1, false, &creds).await {
                     let st = format!("{:?}", ice.state());
                     end = if !(st.contains("Failed") || st.contains("Closed")) && c.canary_ok(Duration::from_millis(200)).await {
                         End::Unresponsive(format!("Binding request unanswered 5x after {} datagrams, ICE state {st}", i + 1))
